@@ -50,6 +50,7 @@ bool read(std::ifstream &f, T &val) {
 /// Read vector from a binary file.
 template <class T>
 bool read(std::ifstream &f, std::vector<T> &vec) {
+    if (vec.empty()) return static_cast<bool>(f);
     return static_cast<bool>(f.read((char*)&vec[0], sizeof(T) * vec.size()));
 }
 
@@ -100,6 +101,14 @@ void read_crs(
     f.seekg(ptr_beg + n * sizeof(Ptr));
     precondition(read(f, nnz), "File I/O error");
 
+    // The row pointers come from the file and are used as sizes and offsets
+    // below, so they have to be consistent:
+    precondition(nnz >= 0 && ptr.front() >= 0 && ptr.back() <= nnz,
+            "Inconsistent row pointers in matrix file");
+    for(ptrdiff_t i = 0; i < chunk; ++i)
+        precondition(ptr[i] <= ptr[i + 1],
+                "Inconsistent row pointers in matrix file");
+
     SizeT nnz_beg = ptr.front();
     if (nnz_beg) for(auto &p : ptr) p -= nnz_beg;
 
@@ -113,11 +122,15 @@ void read_crs(
     f.seekg(col_beg + nnz * sizeof(Col) + nnz_beg * sizeof(Val));
     precondition(read(f, val), "File I/O error");
 
+    for(size_t j = 0, e = col.size(); j < e; ++j)
+        precondition(col[j] >= 0, "Negative column index in matrix file");
+
 #pragma omp parallel for
     for(ptrdiff_t i = 0; i < chunk; ++i) {
         Ptr beg = ptr[i];
         Ptr end = ptr[i + 1];
-        amgcl::detail::sort_row(&col[beg], &val[beg], end - beg);
+        if (beg < end)
+            amgcl::detail::sort_row(&col[beg], &val[beg], end - beg);
     }
 }
 
